@@ -52,6 +52,10 @@ Theorem C15_derivative_never_fails o p (vs : seq 'I_n) :
   exists r, derivative o p [seq nat_of_ord v | v <- vs] = Ok r.
 Proof. exact: derivative_total. Qed.
 
+Theorem C15_gradient_never_fails o p (vs : seq 'I_n) :
+  wfb p -> names p = [seq nat_of_ord v | v <- vs] -> exists r, gradient o p = Ok r.
+Proof. exact: gradient_total. Qed.
+
 Theorem C15_retain_only_layout rc1 rn1 rc2 rn2 ns sh rs (cs : seq (seq R)) q1 q2 :
   from_attributes rc1 rn1 ns sh rs cs = Ok q1 -> from_attributes rc2 rn2 ns sh rs cs = Ok q2 ->
   shape q1 = shape q2 /\ forall i, absE n q1 i = absE n q2 i.
@@ -110,6 +114,7 @@ Print Assumptions C15_product_never_fails.
 Print Assumptions C15_power_never_fails.
 Print Assumptions C15_expression_success.
 Print Assumptions C15_derivative_never_fails.
+Print Assumptions C15_gradient_never_fails.
 Print Assumptions C15_retain_only_layout.
 Print Assumptions C15_sort_flags_unread.
 Print Assumptions C15_sort_flags_unread_expression.
